@@ -405,8 +405,13 @@ def run_config(contract, cfg, facets="VCSTRN", prime=None, tier="quick", max_pat
                unknown_forks=0)
     worklist = [[]]
     seen_sig = {}
+    budget_s = float(os.environ.get("PYVC_TASK_BUDGET_S", "150" if tier == "quick" else "1500"))
     while worklist:
         prefix = worklist.pop()
+        if time.time() - t0 > budget_s:
+            res["engine_errors"].append("time budget of %.0fs per (function, configuration) exceeded after %d paths; %d path prefixes unexplored"
+                                        % (budget_s, res["paths"], len(worklist) + 1))
+            break
         if res["paths"] >= max_paths:
             res["engine_errors"].append("path budget exceeded (%d)" % max_paths)
             break
@@ -496,7 +501,12 @@ def run_config(contract, cfg, facets="VCSTRN", prime=None, tier="quick", max_pat
                     for i, (exc, cond) in enumerate(raises):
                         obs.append(("R.cond_implies_raise[%s#%d]" % (exc.__name__, i), [], z3.Not(formula(cond)), None))
                 with _entry_state(c):
-                    clauses = contract.post(c, r, *args, **kwargs)
+                    try:
+                        clauses = contract.post(c, r, *args, **kwargs)
+                    except (AttributeError, TypeError, IndexError, KeyError) as pe:
+                        # the result does not have the shape the postcondition talks about
+                        clauses = {"V.result_shape": z3.BoolVal(False)}
+                        res.setdefault("exc_by_path", {})[psig + "/post"] = "postcondition not evaluable on the returned object: %s: %s" % (type(pe).__name__, str(pe)[:120])
                 sat_a = None
                 for nm, f in clauses.items():
                     fac = nm.split(".")[0]
@@ -547,6 +557,8 @@ def run_config(contract, cfg, facets="VCSTRN", prime=None, tier="quick", max_pat
                     ob["canary"] = True
                 if nm.startswith("R.unexpected_exception") and psig in res.get("exc_by_path", {}):
                     ob["detail"] = res["exc_by_path"][psig]
+                if nm == "V.result_shape" and psig + "/post" in res.get("exc_by_path", {}):
+                    ob["detail"] = res["exc_by_path"][psig + "/post"]
                 if model is not None:
                     ob["model"] = {k: v for k, v in model.items()
                                    if k.startswith(("s_", "k_", "a_"))}
